@@ -23,7 +23,7 @@ _CYCLE = bytes((i * 7 + 3) % 251 + 1 for i in range(251))     # 251 distinct-ish
 
 U32 = 0xFFFFFFFF
 U64 = 0xFFFFFFFFFFFFFFFF
-SIZE_BOUNDS = [0, 1, 2, 0xFC, 0xFD, 0xFE, 0xFFFF, 0x10000, 0x10001]
+SIZE_BOUNDS = [0, 1, 2, 0xFC, 0xFD, 0xFE, 0xFF, 0x100, 0x101, 0x12C, 0xFFFF, 0x10000, 0x10001]
 
 
 def blob(spec):
@@ -178,7 +178,7 @@ def witness_stacks(big=1):
         (35, st.lists(blobs(big), min_size=1, max_size=4)),
         (8, st.just([""])),
         (6, st.lists(st.just(""), min_size=1, max_size=3)),
-        (3, st.sampled_from([0xFC, 0xFD, 0xFE]).flatmap(
+        (3, st.sampled_from([0xFC, 0xFD, 0xFE, 0x100, 0x101]).flatmap(
             lambda n: st.sampled_from(["", "00", "ab" * 3]).map(lambda item: [item] * n))),
         (3, st.builds(lambda a, b: [a, "", b], blobs(big), blobs(big))),
     ])
@@ -196,7 +196,8 @@ def txouts(big=1):
 
 def txs(big=1, min_ins=1, max_ins=4, max_outs=4, counts=True, witness=True):
     """transactions with >= min_ins inputs; `counts` enables the rare 0xfc/0xfd/0xfe input/output counts"""
-    extra = weighted([(94, st.just(0)), (6, st.sampled_from([0xFC, 0xFD, 0xFE]))]) if counts else st.just(0)
+    rare = 6 if counts is True else counts
+    extra = weighted([(100 - rare, st.just(0)), (rare, st.sampled_from([0xFC, 0xFD, 0xFE, 0x100, 0x101, 0x12C]))]) if counts else st.just(0)
 
     def mk(version, lock_time, ins, outs, xi, xo):
         c = {"version": version, "lock_time": lock_time, "ins": ins, "outs": outs}
@@ -210,8 +211,8 @@ def txs(big=1, min_ins=1, max_ins=4, max_outs=4, counts=True, witness=True):
 
 
 def small_txs(witness=True):
-    """compact transactions for embedding in p2p messages and blocks"""
-    return txs(big=0, max_ins=3, max_outs=3, counts=False, witness=witness)
+    """compact transactions for embedding in p2p messages and blocks (one in fifty with 252..300 inputs or outputs)"""
+    return txs(big=0, max_ins=3, max_outs=3, counts=2, witness=witness)
 
 
 def tx_summary_labels(m):
